@@ -4,3 +4,4 @@ and the mustache tokenizer with its mode-alternating override (Props/MustacheTok
 -/
 import Verif.Props.C04
 import Verif.Props.MustacheTok
+import Verif.Props.CfgTok
